@@ -202,7 +202,14 @@ def opAgg (modality kind : String) (pre post : List String) : String :=
       let nanOrder := kind == .max && oa.any fun h => match ob.find? (·.id == h.id) with
         | some g => g.score != h.score && (scoresOf h.id a).any isNaN32
         | none => false
-      ((va.and vb).and (perm.and (.ok (flags [flag "special" special, flag "nanorder" nanOrder])))).render
+      -- D22 (known finding): with a NaN among an id's scores the running maximum depends on the
+      -- arrival order. KNOWN only when that is exactly what happened (max kind, a NaN among that
+      -- id's scores, the two input orders disagree) and the faithful model agrees with the code.
+      match (va.and vb).and perm with
+      | .ok f =>
+        if nanOrder then "KNOWN D22-nan-max-order-dependent " ++ f
+        else (Verdict.ok f).and (.ok (flags [flag "special" special])) |>.render
+      | v => v.render
     | _, _, _, _ => "BADOP agg hits"
   | _, _, _ => "BADOP agg shape"
 
